@@ -251,6 +251,9 @@ func (e eng) Generate(mode, tier string, r *hx.Rand) []*hx.Case {
 	if mode == "slot" {
 		return genSlot(tier, r)
 	}
+	if mode == "state" {
+		return genState(tier, r)
+	}
 	if mode == "c12" {
 		n := 150
 		if tier == "thorough" {
